@@ -3,7 +3,20 @@
    hand-written and tied to /repo on every run by the correspondence of harness/props/c01.py.
    Quantification: every number of atoms n, every atomic-number assignment, every finder satisfying
    the weak contract F0, every choice function returning a member of its argument, every
-   set-to-list iteration order, every distance matrix / bonding relation, every threshold. *)
+   set-to-list iteration order, every distance matrix / bonding relation, every threshold.
+
+   What is NOT a theorem here (no formal counterpart in the model; observed on every run by
+   harness/props/c01.py and reported as a violation with a replay when it fails):
+     - the caller's Atoms object is untouched (deep comparison before/after);
+     - equal (structure, parameters, seed) give equal output (runs repeated);
+     - no exception other than the front end's ValueError escapes (unmodelled numpy/ASE/finder code);
+     - D really is "minimum-image distance minus radii" (C10/C19; connectivity is recomputed
+       independently from ASE's minimum-image distances on every returned cluster).
+   Notes (outside the property's parameter domain, not violations):
+     - max_cell_size <= 0 makes search_mask[seed] false: F0 fails and the driver loop never ends;
+     - bond_threshold <= 0: np.clip(.., 0, 1.1*eps) bonds every pair (Sbc/Examples.v clip_nonpositive_threshold);
+     - Cluster.get_cell() tests `if self._region:` -- a LinkedUnitCollection is a dict, so an *empty*
+       region would yield None; the finder never returns one (checked per call by the predicate). *)
 From Coq Require Import List Arith Bool ZArith QArith PeanoNat.
 Import ListNotations.
 Local Open Scope nat_scope.
